@@ -217,4 +217,240 @@ theorem PIPE_relabel_invariant (sel : Nat → Option Rat) (reg : List String) (S
       (fun k => (R.2 c c' hc hc' k).symm)
   · exact (iso.atoms_perm'.map (·.Z)).symm
 
+/-! ### C04 ∘ C01 — a mixture `A ⊔ B` -/
+
+/-- the hypotheses of `C04_decompose_union`, quoted: both graphs well-formed; the scheme's queries well-formed and
+connected (guaranteed by the reader: `C02_load_wf`, `C04_load_connected`), without `*` suffix and without molecule-level
+prefix (observed on every shipped scheme by the harness); candidate counts below the cap on the three aromatised graphs;
+chain-free remap table -/
+structure UnionHyps (S : SchemeDef) (A B : Mol) : Prop where
+  hA : A.wf = true
+  hB : B.wf = true
+  hq : S.wf = true
+  hs : S.noStar = true
+  hmp : S.noMolPrefix = true
+  hcn : S.connected = true
+  capa : maxRaw S (aromatizeBenson A) < maxMatches
+  capb : maxRaw S (aromatizeBenson B) < maxMatches
+  capu : maxRaw S ((aromatizeBenson A).union (aromatizeBenson B)) < maxMatches
+  hcf : ChainFree S.remaps
+
+/-- hypothesis `Separated` of `C04_decompose_union` for the two graphs: no name produced on the correction-descriptor side
+of either part carries a group count in either part (otherwise the final `dict.update` replaces a group count and the
+*counts* are not additive; the *names* are in any case) -/
+def SeparatedMol (S : SchemeDef) (A B : Mol) : Prop :=
+  ∀ asgA asgB, assignCentres (toInput S (aromatizeBenson A)) = .ok asgA →
+    assignCentres (toInput S (aromatizeBenson B)) = .ok asgB →
+    Separated (toInput S (aromatizeBenson A)) (toInput S (aromatizeBenson B)) asgA asgB
+
+/-- what the three decompositions have to do with each other (C04 and its key-set companion) -/
+theorem union_counts {S : SchemeDef} {A B : Mol} (H : UnionHyps S A B) (rU rA rB : Counts)
+    (hU : decompose S (A.union B) = .ok rU) (hrA : decompose S A = .ok rA) (hrB : decompose S B = .ok rB) :
+    (Counts.keys rU).Nodup ∧ (Counts.keys rA).Nodup ∧ (Counts.keys rB).Nodup ∧
+    (∀ k, k ∈ Counts.keys rU ↔ k ∈ Counts.keys rA ∨ k ∈ Counts.keys rB) ∧
+    (SeparatedMol S A B → ∀ k, rU.get k = rA.get k + rB.get k) := by
+  refine ⟨decompose_nodup _ _ _ hU, decompose_nodup _ _ _ hrA, decompose_nodup _ _ _ hrB,
+    decompose_union_keys S A B H.hA H.hB H.hq H.hs H.hmp H.hcn H.capa H.capb H.capu H.hcf rU rA rB hU hrA hrB, ?_⟩
+  intro hsep k
+  obtain ⟨a, ha, _⟩ := getDescriptors_ok _ rA hrA
+  obtain ⟨b, hb, _⟩ := getDescriptors_ok _ rB hrB
+  exact (PGA.C04.C04_decompose_union S A B H.hA H.hB H.hq H.hs H.hmp H.hcn H.capa H.capb H.capu H.hcf).2
+    rU rA rB a b hU hrA hrB ha hb (hsep a b ha hb) k
+
+/-- the union decomposes when both parts do -/
+theorem union_decomposes {S : SchemeDef} {A B : Mol} (H : UnionHyps S A B) (rA rB : Counts)
+    (hrA : decompose S A = .ok rA) (hrB : decompose S B = .ok rB) : ∃ rU, decompose S (A.union B) = .ok rU := by
+  cases hU : decompose S (A.union B) with
+  | ok rU => exact ⟨rU, rfl⟩
+  | error e =>
+    cases e
+    rcases (PGA.C04.C04_decompose_union S A B H.hA H.hB H.hq H.hs H.hmp H.hcn H.capa H.capb H.capu H.hcf).1.mp hU with h | h
+    · rw [hrA] at h; cases h
+    · rw [hrB] at h; cases h
+
+theorem atomsOf_union (A B : Mol) : atomsOf (A.union B) = atomsOf A ++ atomsOf B := by
+  simp [atomsOf, Mol.union]
+
+/-- the elemental term of the union is the sum of the parts' -/
+theorem selements_union (sel : Nat → Option Rat) (A B : Mol) (σ : Rat) :
+    selements sel (some (atomsOf (A.union B))) = .ok σ ↔
+      ∃ a b, selements sel (some (atomsOf A)) = .ok a ∧ selements sel (some (atomsOf B)) = .ok b ∧ σ = a + b := by
+  simp only [C07_selements, atomsOf_union, List.mem_append, List.map_append, List.sum_append]
+  constructor
+  · rintro ⟨h, rfl⟩
+    exact ⟨_, _, ⟨fun z hz => h z (Or.inl hz), rfl⟩, ⟨fun z hz => h z (Or.inr hz), rfl⟩, rfl⟩
+  · rintro ⟨a, b, ⟨h1, rfl⟩, ⟨h2, rfl⟩, rfl⟩
+    exact ⟨fun z hz => hz.elim (h1 z) (h2 z), rfl⟩
+
+/-- **C04 ∘ C01: the estimate of a mixture is the sum of the estimates of its components.**  Under the hypotheses of
+`C04_decompose_union` (`UnionHyps`, and `SeparatedMol`: descriptor-side names carry no group count) and for every
+library, registry and property-set name: if `lib.Estimate(lib.GetDescriptors(x), set)` returns an estimate for `A ⊔ B`,
+for `A` and for `B`, then at **every** temperature `Cp/R`, `H/RT` and `S/R` of `A ⊔ B` are the sums of those of `A` and
+`B` — precisely: the mixture's getter returns a value exactly when both components' getters do, and then the sum — for
+`S/R` both without and with the elemental reference (the elemental term is additive too); and the mixture's validity range
+is the intersection of the components'. -/
+theorem PIPE_mixture_additive (sel : Nat → Option Rat) (reg : List String) (S : SchemeDef) (lib : Lib) (set : String)
+    (A B : Mol) (H : UnionHyps S A B) (hsep : SeparatedMol S A B) (eU eA eB : Estimator)
+    (hU : pipeline reg S lib (A.union B) set = .ok eU) (hA : pipeline reg S lib A set = .ok eA)
+    (hB : pipeline reg S lib B set = .ok eB) :
+    NDSum (eU.toND sel) (eA.toND sel) (eB.toND sel) ∧ eU.range = interRange eA.range eB.range := by
+  obtain ⟨rU, eU0, hdU, heU, rfl⟩ := (pipeline_ok_iff reg S lib _ set eU).mp hU
+  obtain ⟨rA, eA0, hdA, heA, rfl⟩ := (pipeline_ok_iff reg S lib _ set eA).mp hA
+  obtain ⟨rB, eB0, hdB, heB, rfl⟩ := (pipeline_ok_iff reg S lib _ set eB).mp hB
+  obtain ⟨nU, nA, nB, hk, hg⟩ := union_counts H rU rA rB hdU hdA hdB
+  have hg := hg hsep
+  have W := fun get => wsum_union get reg lib set rU rA rB eU0 eA0 eB0 nU nA nB hg hk heU heA heB
+  refine ⟨⟨fun T v => W (·.cp T) v, fun T v => W (·.hort T) v, fun T flag v => ?_⟩, ?_⟩
+  · show (withName _ eU0).SoR sel T flag = .ok v ↔
+      ∃ x y, (withName _ eA0).SoR sel T flag = .ok x ∧ (withName _ eB0).SoR sel T flag = .ok y ∧ v = x + y
+    simp only [SoR_ok_iff]
+    show (∃ sele s, (if flag.truthy then selements sel (some (atomsOf (A.union B))) else .ok 0) = .ok sele ∧
+        wsum (·.sor T) eU0.correlations = .ok s ∧ v = s - sele) ↔
+      ∃ x y, (∃ sele s, (if flag.truthy then selements sel (some (atomsOf A)) else .ok 0) = .ok sele ∧
+        wsum (·.sor T) eA0.correlations = .ok s ∧ x = s - sele) ∧
+        (∃ sele s, (if flag.truthy then selements sel (some (atomsOf B)) else .ok 0) = .ok sele ∧
+        wsum (·.sor T) eB0.correlations = .ok s ∧ y = s - sele) ∧ v = x + y
+    by_cases hf : flag.truthy = true
+    · simp only [hf, if_true, W (·.sor T), selements_union]
+      constructor
+      · rintro ⟨_, _, ⟨a, b, ha, hb, rfl⟩, ⟨x, y, hx, hy, rfl⟩, rfl⟩
+        exact ⟨x - a, y - b, ⟨a, x, ha, hx, rfl⟩, ⟨b, y, hb, hy, rfl⟩, by ring⟩
+      · rintro ⟨_, _, ⟨a, x, ha, hx, rfl⟩, ⟨b, y, hb, hy, rfl⟩, rfl⟩
+        exact ⟨a + b, x + y, ⟨a, b, ha, hb, rfl⟩, ⟨x, y, hx, hy, rfl⟩, by ring⟩
+    · simp only [hf, Bool.false_eq_true, if_false, W (·.sor T), Except.ok.injEq]
+      constructor
+      · rintro ⟨_, _, rfl, ⟨x, y, hx, hy, rfl⟩, rfl⟩
+        exact ⟨x, y, ⟨0, x, rfl, hx, by ring⟩, ⟨0, y, rfl, hy, by ring⟩, by ring⟩
+      · rintro ⟨_, _, ⟨_, x, rfl, hx, rfl⟩, ⟨_, y, rfl, hy, rfl⟩, rfl⟩
+        exact ⟨0, x + y, rfl, ⟨x, y, hx, hy, rfl⟩, by ring⟩
+  · show eU0.range = interRange eA0.range eB0.range
+    rw [(estimate_range reg lib rU set eU0 heU).1, (estimate_range reg lib rA set eA0 heA).1,
+      (estimate_range reg lib rB set eB0 heB).1]
+    exact commonRange_termsOf_union lib set rU rA rB hk
+
+/-! #### the failure clause -/
+
+/-- where the pipeline stopped (`none`: it returned an estimate) -/
+inductive PKind where
+  | patternMatch
+  | estimate (k : EstKind)
+  deriving DecidableEq, Repr
+
+def pkindOf : Except Err Estimator → Option PKind
+  | .ok _ => none
+  | .error .patternMatch => some .patternMatch
+  | .error (.estimate e) => some (.estimate (estKind e))
+
+def estPart : Option PKind → Option EstKind
+  | some (.estimate k) => some k
+  | _ => none
+
+/-- what the range assertion says of the intersection of the two parts' common ranges (`none`: it passes) -/
+def mixRange (S : SchemeDef) (lib : Lib) (set : String) (A B : Mol) : Option EstKind :=
+  match decompose S A, decompose S B with
+  | .ok rA, .ok rB => rangeKindOf (interRange (commonRange (termsOf lib set rA)) (commonRange (termsOf lib set rB)))
+  | _, _ => none
+
+/-- **The decision table of a mixture's outcome**, by precedence: a part does not decompose → `PatternMatchError`; the
+property-set name is not registered → `KeyError`; a part has a descriptor without data → `GroupMissingDataError`; a part has
+a descriptor outside the uncertainty basis → `ValueError`; the uncertainty matrix does not fit → `ValueError`; otherwise
+the range assertion on the intersection of the parts' ranges decides (`AssertionError` or an estimate). -/
+def mixP (pA pB : Option PKind) (r : Option EstKind) : Option PKind :=
+  if pA = some .patternMatch ∨ pB = some .patternMatch then some .patternMatch
+  else (mixKind (estPart pA) (estPart pB) r).map PKind.estimate
+
+theorem pkindOf_pipeline (reg : List String) (S : SchemeDef) (lib : Lib) (m : Mol) (set : String) :
+    pkindOf (pipeline reg S lib m set) =
+      match decompose S m with
+      | .error _ => some .patternMatch
+      | .ok c => (kindOf (estimate reg lib c set)).map PKind.estimate := by
+  unfold pipeline getDescriptors remember
+  cases decompose S m with
+  | error e => cases e; rfl
+  | ok c =>
+    simp only
+    rw [estimate_withName]
+    cases estimate reg lib c set <;> rfl
+
+theorem estPart_map (k : Option EstKind) : estPart (k.map PKind.estimate) = k := by
+  cases k <;> rfl
+
+theorem map_estimate_ne_patternMatch (k : Option EstKind) : k.map PKind.estimate ≠ some PKind.patternMatch := by
+  cases k <;> simp
+
+/-- **C04 ∘ C01, failure clause: exactly when — and how — the pipeline of a mixture fails, given the outcomes of the
+parts.**  Under the hypotheses of `C04_decompose_union` (no separation hypothesis is needed here: failures depend on the
+*names* listed, not on their counts), for every library, registry and set name: the stage at which
+`lib.Estimate(lib.GetDescriptors(A ⊔ B), set)` stops is `mixP` of the stages at which it stops for `A` and for `B` — in
+particular it raises `PatternMatchError` iff one part does; otherwise the missing-data error iff one part does — and the
+descriptors a missing-data error of the mixture names are exactly those named for `A` or for `B`. -/
+theorem PIPE_mixture_failure (reg : List String) (S : SchemeDef) (lib : Lib) (set : String) (A B : Mol)
+    (H : UnionHyps S A B) :
+    pkindOf (pipeline reg S lib (A.union B) set) =
+      mixP (pkindOf (pipeline reg S lib A set)) (pkindOf (pipeline reg S lib B set)) (mixRange S lib set A B) ∧
+    ∀ dsU, pipeline reg S lib (A.union B) set = .error (.estimate (.missing dsU)) →
+      ∀ g, g ∈ dsU ↔ (∃ dsA, pipeline reg S lib A set = .error (.estimate (.missing dsA)) ∧ g ∈ dsA) ∨
+                     (∃ dsB, pipeline reg S lib B set = .error (.estimate (.missing dsB)) ∧ g ∈ dsB) := by
+  have C := (PGA.C04.C04_decompose_union S A B H.hA H.hB H.hq H.hs H.hmp H.hcn H.capa H.capb H.capu H.hcf).1
+  constructor
+  · rw [pkindOf_pipeline, pkindOf_pipeline, pkindOf_pipeline]
+    unfold mixRange
+    cases hA : decompose S A with
+    | error e =>
+      cases e
+      rw [C.mpr (Or.inl hA)]
+      simp [mixP]
+    | ok rA =>
+      cases hB : decompose S B with
+      | error e =>
+        cases e
+        rw [C.mpr (Or.inr hB)]
+        simp [mixP]
+      | ok rB =>
+        obtain ⟨rU, hU⟩ := union_decomposes H rA rB hA hB
+        obtain ⟨_, _, _, hk, _⟩ := union_counts H rU rA rB hU hA hB
+        simp only [hU, mixP, map_estimate_ne_patternMatch, or_self, if_false, estPart_map]
+        rw [estimate_kind, estimate_kind, estimate_kind, outcomeKind_union reg lib set rU rA rB hk]
+  · intro dsU hU g
+    obtain ⟨rU, hdU, heU⟩ := (pipeline_esterr_iff reg S lib _ set _).mp hU
+    obtain ⟨hr, rfl, _⟩ := (C01_missing_iff reg lib rU set dsU).mp heU
+    have hnA : decompose S A ≠ .error .patternMatch := fun h => by rw [C.mpr (Or.inl h)] at hdU; cases hdU
+    have hnB : decompose S B ≠ .error .patternMatch := fun h => by rw [C.mpr (Or.inr h)] at hdU; cases hdU
+    cases hA : decompose S A with
+    | error e => cases e; exact absurd hA hnA
+    | ok rA =>
+      cases hB : decompose S B with
+      | error e => cases e; exact absurd hB hnB
+      | ok rB =>
+        obtain ⟨_, _, _, hk, _⟩ := union_counts H rU rA rB hdU hA hB
+        rw [specMissing_union lib set rU rA rB hk g]
+        have part : ∀ (m : Mol) (r : Counts), decompose S m = .ok r →
+            (g ∈ specMissing lib set r ↔ ∃ ds, pipeline reg S lib m set = .error (.estimate (.missing ds)) ∧ g ∈ ds) := by
+          intro m r hm
+          constructor
+          · intro hg
+            refine ⟨specMissing lib set r, (pipeline_esterr_iff reg S lib m set _).mpr ⟨r, hm, ?_⟩, hg⟩
+            exact (C01_missing_iff reg lib r set _).mpr ⟨hr, rfl, fun e => by rw [e] at hg; cases hg⟩
+          · rintro ⟨ds, hp, hg⟩
+            obtain ⟨r', hm', he'⟩ := (pipeline_esterr_iff reg S lib m set _).mp hp
+            rw [hm] at hm'; cases hm'
+            obtain ⟨_, rfl, _⟩ := (C01_missing_iff reg lib r set ds).mp he'
+            exact hg
+        rw [part A rA hA, part B rB hB]
+
+/-- **Corollary: when both components are estimated**, the mixture is estimated exactly when the intersection of the two
+validity ranges is not empty (or neither has a range); otherwise it fails with the range `AssertionError` — never in any
+other way. -/
+theorem PIPE_mixture_estimate_iff (reg : List String) (S : SchemeDef) (lib : Lib) (set : String) (A B : Mol)
+    (H : UnionHyps S A B) (eA eB : Estimator) (hA : pipeline reg S lib A set = .ok eA) (hB : pipeline reg S lib B set = .ok eB) :
+    pkindOf (pipeline reg S lib (A.union B) set) = (rangeKindOf (interRange eA.range eB.range)).map PKind.estimate := by
+  rw [(PIPE_mixture_failure reg S lib set A B H).1, hA, hB]
+  obtain ⟨rA, eA0, hdA, heA, rfl⟩ := (pipeline_ok_iff reg S lib _ set eA).mp hA
+  obtain ⟨rB, eB0, hdB, heB, rfl⟩ := (pipeline_ok_iff reg S lib _ set eB).mp hB
+  unfold mixRange
+  simp only [hdA, hdB]
+  show mixP none none _ = (rangeKindOf (interRange eA0.range eB0.range)).map PKind.estimate
+  rw [(estimate_range reg lib rA set eA0 heA).1, (estimate_range reg lib rB set eB0 heB).1]
+  simp [mixP, mixKind, estPart]
+
 end PGA.Pipeline
